@@ -11,7 +11,8 @@ Oracle (model-independent): for every case the harness knows from the DEFINITION
 (1 <= v <= p-1; 1024 <= bits(p) <= 8192 and p > 0; library accepts the point; X25519 secret not all-zero). Invalid
 => the step must raise, `_set_K_H` must not have been called and nothing may have been sent. Run (a) engine level
 with toy and with real `cryptography` primitives, (b) gex group sizes with the real `_generate_x`, (c) end to end
-between two real Transports with a plaintext man-in-the-middle replacing e / f / p / the point.
+between two real Transports with a plaintext man-in-the-middle replacing e / f / p / the point, and the same on a
+re-exchange (the sending transport is made to emit the invalid value, since that traffic is encrypted).
 """
 import struct
 
@@ -277,6 +278,63 @@ def e2e_oracle(ctx):
             e.close()
 
 
+def rekey_oracle(ctx):
+    """the same on a RE-exchange (traffic already encrypted): the sending side is made to emit the invalid value"""
+    import threading
+    from paramiko.kex_group14 import KexGroup14
+    from pv.core import InfraError
+
+    rng = ctx.rng
+    P = KexGroup14.P
+    plans = [("group14-256", "client", 31, "sms", 1, rng.choice([0, P, P + 1, -1]), "f"),
+             ("group14-256", "server", 30, "m", 0, rng.choice([0, P, P + 1, -1]), "e"),
+             ("gex256", "client", 33, "sms", 1, rng.choice([0, P, P + 5]), "f"),
+             ("gex256", "client", 31, "mm", 0, rng.choice([L.random_odd(rng, 768), -L.random_odd(rng, 2048), L.random_odd(rng, 9000)]), "p"),
+             ("nistp256", "client", 31, "sss", 1, b"\x04" + rng.randbytes(64), "Q_S"),
+             ("nistp256", "server", 30, "s", 0, b"\x04" + rng.randbytes(64), "Q_C"),
+             ("c25519", "client", 31, "sss", 1, bytes.fromhex(rng.choice(X25519_LOW_ORDER)), "Q_S"),
+             ("c25519", "server", 30, "s", 0, bytes.fromhex(rng.choice(X25519_LOW_ORDER)), "Q_C")]
+    for kex, victim, ptype, kinds, idx, value, what in plans:
+        e = L.E2E(kex, L.host_key("ed25519"))
+        case = {"kex": kex, "victim": victim, "field": what, "exchange": 2}
+        try:
+            err = e.handshake(timeout=60)
+            if err is not None or not e.wait_logs(1):
+                ctx.disagree("e2e-honest-handshake-failed", case, "completes", repr(err))
+                continue
+            hit = []
+            sender = e.ts if victim == "client" else e.tc
+            vt, side = (e.tc, "c") if victim == "client" else (e.ts, "s")
+            L.tamper_outgoing(sender, ptype, kinds, idx, value, hit)
+            out = {}
+
+            def go():
+                try:
+                    e.tc.renegotiate_keys()
+                    out["res"] = None
+                except Exception as ex:
+                    out["res"] = ex
+
+            th = threading.Thread(target=go, daemon=True)
+            th.start()
+            th.join(90)
+            if th.is_alive():
+                raise InfraError("C08: renegotiate_keys did not return within 90 s")
+            vt.join(30)
+            ctx.case(("e2e-rekey", kex, victim, what, str(value)[:40]), True)
+            ctx.dist("e2e-rekey:%s:%s:%s" % (kex, victim, what))
+            if not hit:
+                ctx.disagree("e2e-rekey-tamper-not-applied", case, "altered", "message %d not seen" % ptype)
+                continue
+            with e.cv:
+                n_kh, n_done = len(e.log[side]), e.done[side]
+            if n_kh > 1 or n_done > 1 or vt.is_active():
+                ctx.fail("e2e-invalid-kex-value-accepted-on-rekey:%s:%s" % (kex, victim), case,
+                         "victim set_K_H calls=%d completed exchanges=%d still active=%s" % (n_kh, n_done, vt.is_active()))
+        finally:
+            e.close()
+
+
 def tag(v, P):
     if v == 0:
         return "0"
@@ -343,6 +401,7 @@ def run(ctx):
     real_curve_oracle(ctx)
     gex_group_oracle(ctx)
     e2e_oracle(ctx)
+    rekey_oracle(ctx)
 
 
 def replay(data):
